@@ -111,7 +111,7 @@ Facts101 ==
      {[Base101 EXCEPT !.f36 = a, !.f21F = b, !.f33 = c] : a, b \in BOOLEAN, c \in {"none", "same", "diff"}}
   \cup {[Base101 EXCEPT !.ntx = n, !.ocA = a, !.ocB = b, !.ipA = c, !.ipB = d, !.s52A = e, !.s52B = g] :
            n \in {1, 2}, a \in BOOLEAN, b \in {"none", "first", "all"}, c, d, e, g \in BOOLEAN}
-  \cup {[Base101 EXCEPT !.ntx = 2, !.f21R = a, !.cur2 = b] : a \in BOOLEAN, b \in {"same", "diff"}}
+  \cup {[Base101 EXCEPT !.ntx = n, !.f21R = a, !.cur2 = b] : n \in {2, 3, 4}, a \in BOOLEAN, b \in {"same", "diff", "lastdiff"}}
   \cup {[Base101 EXCEPT !.f56 = a, !.f57 = b] : a, b \in BOOLEAN}
   \cup {[Base101 EXCEPT !.e23 = e, !.info = i] : e \in SeqsUpTo(Codes101, 2), i \in BOOLEAN}
 
@@ -126,7 +126,7 @@ Expected101(f) ==
   \cup (IF f.f33 = "same" THEN {"D68"} ELSE {})
   \cup (IF f.s52A /\ f.s52B THEN {"D64"} ELSE {})
   \cup (IF f.f56 /\ ~f.f57 THEN {"D65"} ELSE {})
-  \cup (IF f.f21R /\ f.ntx = 2 /\ f.cur2 = "diff" THEN {"D98"} ELSE {})
+  \cup (IF f.f21R /\ f.ntx >= 2 /\ f.cur2 # "same" THEN {"D98"} ELSE {})
   \cup (IF \E c \in codes : c \notin Valid101 THEN {"T47"} ELSE {})
   \cup (IF f.info /\ \E c \in codes : c \notin Info101 THEN {"D66"} ELSE {})
   \cup (IF \E i, j \in 1..Len(f.e23) : i < j /\ f.e23[i] = f.e23[j] /\ f.e23[i] # "OTHR" THEN {"E46"} ELSE {})
@@ -142,9 +142,11 @@ Build101(f) ==
   \o <<"59=acct">>
   \o (IF f.f33 = "same" THEN <<"33B=USD:90">> ELSE IF f.f33 = "diff" THEN <<"33B=EUR:90">> ELSE <<>>)
   \o <<"71A=SHA">> \o (IF f.f36 THEN <<"36">> ELSE <<>>)
-  \o (IF f.ntx = 2 THEN <<"21", "32B=" \o (IF f.cur2 = "diff" THEN "EUR" ELSE "USD") \o ":100">>
-                        \o (IF f.ocB = "all" THEN <<"50H">> ELSE <<>>) \o <<"59=acct", "71A=SHA">>
-      ELSE <<>>)
+  \o LET Tx(i) == <<"21", "32B=" \o (IF (f.cur2 = "diff" /\ i = 2) \/ (f.cur2 = "lastdiff" /\ i = f.ntx) THEN "EUR" ELSE "USD") \o ":100">>
+                   \o (IF f.ocB = "all" THEN <<"50H">> ELSE <<>>) \o <<"59=acct", "71A=SHA">>
+         RECURSIVE Txs(_)
+         Txs(i) == IF i > f.ntx THEN <<>> ELSE Tx(i) \o Txs(i + 1)
+     IN Txs(2)
 
 (* ================================ MT107 ================================== *)
 Place == {"none", "A", "first", "all", "Aall"}      \* where a field stands: nowhere, sequence A, first / every B, both
